@@ -93,6 +93,9 @@ def geom_json(g):
     return {"type": "BoundingBox", "coordinates": list(g)}
 
 
+TAG_FORM_KEYS = ("vocab", "ann", "pred", "vocab_term", "ann_term", "pred_term")
+
+
 def build(inp):
     """abstract input -> (clip_predictions, clip_annotations, vocabulary tags)
 
@@ -102,12 +105,21 @@ def build(inp):
     `inp["opts"]` (optional, C09) varies how the same content is handed over: {"tags": "shared"} one Tag object
     per pool position within this call instead of a new one per use; {"score": "np64" | "np32" | "int"} the
     predicted scores as numpy scalars / Python ints where integral ("np32": the float32 value of the score);
-    {"seq": "tuple"} tag / sound event sequences as tuples."""
+    {"seq": "tuple"} tag / sound event sequences as tuples; {"vocab" | "ann" | "pred": form, "vocab_term" |
+    "ann_term" | "pred_term": mode} how the Tag objects of the vocabulary / annotations / predictions are made and
+    where their Term objects come from (`tagpool.Maker`: Tag subclasses, model_validate / model_copy, shared Term
+    objects, the Term object of a vocabulary tag under another value)."""
     from soundevent import data
     rec = _base()["rec"]
     ses = {}
     opts = inp.get("opts") or {}
-    if inp.get("tagpool") is not None:
+    forms = {k: opts[k] for k in TAG_FORM_KEYS if opts.get(k) is not None}
+    if forms:
+        from . import tagpool
+        maker = tagpool.Maker(tagpool.descriptors(inp), forms)
+        vocab_tags = maker.vocab(inp["vocab"])           # first: "cross" hands its Term objects to the other tags
+        tag = tag_p = None
+    elif inp.get("tagpool") is not None:
         from . import tagpool
         descs = inp["tagpool"]
         if opts.get("tags") == "shared":
@@ -141,8 +153,17 @@ def build(inp):
             ses[key] = data.SoundEvent(recording=rec, geometry=_geometry(ev["geom"]))
         return ses[key]
 
+    if forms:
+        def tag(t):
+            return maker.make("ann", t)
+
+        def tag_p(t):
+            return maker.make("pred", t)
+    else:
+        tag_p = tag
+
     def ptags(ts):
-        return seq(data.PredictedTag(tag=tag(t), score=score(s)) for t, s in ts)
+        return seq(data.PredictedTag(tag=tag_p(t), score=score(s)) for t, s in ts)
 
     preds, anns = [], []
     for c in inp["predictions"]:
@@ -156,7 +177,7 @@ def build(inp):
             clip=clip(c["clip"]), tags=seq(tag(t) for t in c.get("tags", [])),
             sound_events=seq(data.SoundEventAnnotation(sound_event=sound_event(e), tags=seq(tag(t) for t in e["tags"]))
                              for e in c.get("events", []))))
-    return preds, anns, [tag(t) for t in inp["vocab"]]
+    return preds, anns, (vocab_tags if forms else [tag(t) for t in inp["vocab"]])
 
 
 def task_fn(name):
